@@ -198,7 +198,7 @@ func (g *Gen) object(p *Plan, t *TypeDef, cur *Fetch, sel *Sel, path []PathElem,
 	return out
 }
 
-func (g *Gen) repNode(f *Fetch) *plan.Node {
+func repNode(f *Fetch) *plan.Node {
 	on := []string{f.Type}
 	n := &plan.Node{Kind: plan.KObj, Nullable: true}
 	n.Fields = append(n.Fields,
@@ -208,6 +208,27 @@ func (g *Gen) repNode(f *Fetch) *plan.Node {
 		n.Fields = append(n.Fields, &plan.Field{Name: r.Name, On: on, Value: &plan.Node{Kind: r.Scalar, Path: []string{r.Name}, Nullable: r.Nullable}})
 	}
 	return n
+}
+
+
+// Finalize computes the operation texts and representation variables of every fetch from its
+// selection (called by the generator; exported for hand-built plans).
+func (p *Plan) Finalize(sharedOps bool) {
+	for _, f := range p.Fetches {
+		url := `{"method":"POST","url":"http://` + f.DSName() + `","body":{"query":"`
+		opName := ""
+		if !sharedOps {
+			opName = " f" + strconv.Itoa(f.ID) // a distinct operation per fetch: no subgraph single flight between sibling fetches
+		}
+		if f.Kind == FSingle {
+			f.Header = url + "query" + opName + " " + f.Sel.Text() + `"}}`
+			continue
+		}
+		f.Rep = repNode(f)
+		f.Header = url + `query` + opName + `($representations: [_Any!]!){_entities(representations: $representations){... on ` + f.Type + ` ` +
+			(&Sel{Type: f.Type, Key: false, Fields: f.Sel.Fields}).typenameText() + `}}","variables":{"representations":[`
+		f.Footer = `]}}}`
+	}
 }
 
 func (p *Plan) level(f *Fetch, memo map[int]int) int {
@@ -257,22 +278,7 @@ func (g *Gen) Plan(u *Universe) *Plan {
 		root.Fields = append(root.Fields, f)
 	}
 	p.Root = root
-	// finalize inputs and representation variables
-	for _, f := range p.Fetches {
-		url := `{"method":"POST","url":"http://` + f.DSName() + `","body":{"query":"`
-		opName := ""
-		if !g.Opt.SharedOps {
-			opName = " f" + strconv.Itoa(f.ID) // a distinct operation per fetch: no subgraph single flight between sibling fetches
-		}
-		if f.Kind == FSingle {
-			f.Header = url + "query" + opName + " " + f.Sel.Text() + `"}}`
-			continue
-		}
-		f.Rep = g.repNode(f)
-		f.Header = url + `query` + opName + `($representations: [_Any!]!){_entities(representations: $representations){... on ` + f.Type + ` ` +
-			(&Sel{Type: f.Type, Key: false, Fields: f.Sel.Fields}).typenameText() + `}}","variables":{"representations":[`
-		f.Footer = `]}}}`
-	}
+	p.Finalize(g.Opt.SharedOps)
 	// fetch tree: levels by dependency depth
 	memo := map[int]int{}
 	maxL := 0
